@@ -66,3 +66,15 @@ Theorem c10_archetype_move_keeps_caches_exact :
     move_entity w src dst nw = ROk tt w' -> XI w -> XI w'.
 Proof. exact move_entity_XI. Qed.
 Print Assumptions c10_archetype_move_keeps_caches_exact.
+
+Require Import EV.NoUB.
+(* the handlers a delivery runs (delivered_to) can all evaluate their parameters at the target's
+   location: every cache is exact (CI) and the targeted receiver's query matches the target's
+   archetype, whose row exists *)
+Theorem c10_delivered_handlers_parameters_are_ready :
+  forall (beh : hinfo -> logent -> N -> script) (w : world) (it : qitem) (loc : eloc),
+    DI w -> SInv w ->
+    (qi_targeted it = true -> sm_get (qi_target it) (w_ents w) = Some loc) ->
+    ready_list w (delivered_to w it) loc.
+Proof. exact delivered_ready. Qed.
+Print Assumptions c10_delivered_handlers_parameters_are_ready.
